@@ -37,8 +37,8 @@ def read_only(fam, est, rows, r):
 
 def run(ctx):
     cov = ctx.cov
-    N = ctx.scale(420, 8000)
-    nmax = ctx.scale(14, 60)
+    N = ctx.scale(420, 4000)
+    nmax = ctx.scale(14, 40)
     names = families.ALL_FAMILIES
     for i in range(N):
         r = gen.rng_for(ctx.seed, "C06", i)
